@@ -19,7 +19,8 @@ import lib
 from lib import gz, gtext, glist, gbool, gopt, gpair
 
 THEOREMS = ['C04_xml_typed', 'C04_xml_typed_spyne', 'C04_xml_args_typed', 'C04_xml_retag_rejected',
-            'C04_xml_unguarded_refuted']
+            'C04_xml_unguarded_refuted', 'C04_dict_typed_partial', 'C04_dict_args_typed_partial',
+            'C04_dict_msgpack_bytes_refuted', 'C04_dict_unrepaired_refuted']
 
 XSI = 'http://www.w3.org/2001/XMLSchema-instance'
 XSD = 'http://www.w3.org/2001/XMLSchema'
@@ -340,6 +341,29 @@ def in_universe(v):
     return True
 
 
+def decl_name(cls):
+    """a name of the declared type that does not depend on the generated universe"""
+    from spyne.model.complex import Array, ComplexModelBase
+    if issubclass(cls, Array):
+        return 'Array'
+    if issubclass(cls, ComplexModelBase):
+        return 'ComplexModel'
+    for k in cls.__mro__:
+        tn = k.__dict__.get('__type_name__')
+        if isinstance(tn, str):
+            return tn
+    return cls.__name__
+
+
+def recv_name(v):
+    if hasattr(v, '_type_info'):
+        return 'ComplexModel'
+    if isinstance(v, tuple):
+        odd = [x for x in v if not isinstance(x, (bytes, bytearray, memoryview))]
+        return 'tuple[%s]' % (type(odd[0]).__name__ if odd else 'bytes')
+    return type(v).__name__
+
+
 def native_ok(cls, v, path='arg', multi_ok=False):
     """THE PROPERTY, on the real classes: None, or an instance of the native type of the declared model
     (a subclass instance where a complex type is declared), or a list of such.  Returns None when fine,
@@ -354,7 +378,7 @@ def native_ok(cls, v, path='arg', multi_ok=False):
     o = orig(cls)
 
     def bad():
-        return (path, '%s' % (cls.get_type_name() if isinstance(cls.get_type_name(), str) else o.__name__), '%s:%r' % (type(v).__name__, v) if not hasattr(v, '_type_info') else type(v).__name__)
+        return (path, decl_name(cls), recv_name(v) + ':' + repr(v)[:60])
 
     if issubclass(o, Array):
         if type(v) is not list:
@@ -376,7 +400,7 @@ def native_ok(cls, v, path='arg', multi_ok=False):
                 if x is None:
                     continue
                 if type(x) is not list:
-                    return ('%s.%s' % (path, k), 'list of ' + str(orig(t).__name__), '%s:%r' % (type(x).__name__, x))
+                    return ('%s.%s' % (path, k), 'list of ' + decl_name(t), recv_name(x) + ':' + repr(x)[:60])
                 for i, y in enumerate(x):
                     r = native_ok(t, y, '%s.%s[%d]' % (path, k, i))
                     if r:
@@ -718,7 +742,7 @@ XML_IMPORTS = ('From SpyneV Require Import Base.Prelude Wire.Universe Wire.Xml C
 
 def xml_key(kind, prot, val, muts, bad):
     shape = sorted(set(m.split(' ', 1)[1].split('=')[0] if ' ' in m else m for m in muts))
-    return 'C04|%s|%s|validator=%s|%s|%s->%s' % (kind, prot, val, ','.join(shape)[:80] or 'as-written', bad[1], bad[2].split(':')[0])
+    return 'C04|%s|validator=%s|%s->%s' % (prot, val, bad[1], bad[2].split(':')[0])
 
 
 def corr_xml(check, tier):
@@ -878,6 +902,556 @@ def oracle_xml(check, tier):
                             'body': b.decode(), 'mutations': muts})
 
 
+# ====================================================================== dict documents (JSON / YAML / MessagePack)
+DICT_PRIMS = ('int', 'i32', 'u8', 'i64', 'dbl', 'bool', 'text', 'date', 'bytes')
+INT_BOUNDS = {'int': (None, None), 'i32': (-2 ** 31, 2 ** 31 - 1), 'u8': (0, 255), 'i64': (-2 ** 63, 2 ** 63 - 1)}
+DICT_IMPORTS = 'From SpyneV Require Import Base.Prelude C04.Guard C04.DictModel Gen.DictLeaf.\n'
+PROTOS = {'json': 'PJson', 'yaml': 'PYaml', 'msgpack': 'PMsgpack'}
+
+
+def gen_ddesc(rng, n_classes):
+    """universes for the dict model: no XmlAttribute members, leaf types of DictModel.dprim"""
+    d = gen_desc(rng, n_classes, prims=DICT_PRIMS, allow_attr=False)
+    return d
+
+
+def g_dprim(p):
+    if p in INT_BOUNDS:
+        lo, hi = INT_BOUNDS[p]
+        return '(DInt %s %s)' % (gopt(lo, gz), gopt(hi, gz))
+    return {'dbl': 'DDouble', 'bool': 'DBool', 'text': 'DText', 'date': 'DDate', 'bytes': 'DBytes'}[p]
+
+
+def g_dty(ty):
+    if ty[0] == 'prim':
+        return '(DPrim %s)' % g_dprim(ty[1])
+    if ty[0] == 'ref':
+        return '(DRef %d%%nat)' % ty[1]
+    return '(DArr %s)' % g_dty(ty[1])
+
+
+def g_duniverse(desc, classes):
+    rows = []
+    for i, c in enumerate(desc['classes']):
+        subs = []
+        for sc in classes[i].get_subclasses():
+            for j, k in enumerate(classes):
+                if orig(sc) is k:
+                    subs.append(j)
+        fs = ['(mkdf %s %s %s %s %s)' % (gtext(f['name']), g_dty(f['ty']), gz(f['min']), gopt(f['max'], gz), gbool(f['nillable']))
+              for f in c['fields']]
+        rows.append('(mkdc %s %s %s %s)' % (gtext(c['name']), gopt(c['parent'], lambda p: '%d%%nat' % p), glist(fs),
+                                            glist(['%d%%nat' % j for j in subs])))
+    return glist(rows)
+
+
+def g_flt(x):
+    if x != x:
+        return 'FNan'
+    if x in (float('inf'), float('-inf')):
+        return 'FInf'
+    if x == int(x):
+        return '(FInt %s)' % gz(int(x))
+    return 'FFrac'
+
+
+def g_jv(d):
+    if d is None:
+        return 'JNull'
+    if isinstance(d, bool):
+        return '(JBool %s)' % gbool(d)
+    if isinstance(d, int):
+        return '(JInt %s)' % gz(d)
+    if isinstance(d, float):
+        return '(JFlt %s)' % g_flt(d)
+    if isinstance(d, str):
+        return '(JStr %s)' % gtext(d)
+    if isinstance(d, (bytes, bytearray)):
+        return '(JBytes %s)' % gtext(bytes(d))
+    if isinstance(d, (list, tuple)):
+        return '(JList %s)' % glist([g_jv(x) for x in d])
+    if isinstance(d, dict):
+        return '(JMap %s)' % glist(['(%s, %s)' % (g_jv(k), g_jv(v)) for k, v in d.items()])
+    raise ValueError('document node outside the modelled kinds: %r' % type(d))
+
+
+def g_nv(v):
+    k = v[0]
+    if k == 'none':
+        return 'NNone'
+    if k == 'bool':
+        return '(NBool %s)' % gbool(v[1])
+    if k == 'int':
+        return '(NInt %s)' % gz(v[1])
+    if k == 'flt':
+        return '(NFlt %s)' % g_flt(v[1])
+    if k == 'text':
+        return '(NText %s)' % gtext(v[1])
+    if k == 'parsed':
+        return '(NParsed %s)' % v[1]
+    if k == 'raw':
+        return '(NRaw %s)' % g_jv(v[1])
+    if k == 'tuple':
+        return '(NTuple %s)' % g_jv(v[1])
+    if k == 'list':
+        return '(NList %s)' % glist([g_nv(x) for x in v[1]])
+    if k == 'obj':
+        return '(NObj %d%%nat %s)' % (v[1], glist([g_nv(x) for x in v[2]]))
+    raise ValueError('native value outside the modelled kinds: %r' % (v,))
+
+
+def is_doc(v):
+    if v is None or isinstance(v, (bool, int, float, str, bytes)):
+        return True
+    if isinstance(v, (list, tuple)):
+        return all(is_doc(x) for x in v)
+    if isinstance(v, dict):
+        return all(is_doc(k) and is_doc(x) for k, x in v.items())
+    return False
+
+
+def dnative(desc, classes, ty, v, proto, multi=False):
+    """native value delivered for declared type ty -> neutral form of DictModel.nv (type directed, because a
+    Python list may be an array, a sequence of byte chunks or a passed-through document)"""
+    if v is None:
+        return ('none',)
+    if multi:
+        if type(v) is list:
+            return ('list', [dnative(desc, classes, ty, x, proto) for x in v])
+        return ('other', type(v).__name__)
+    if ty[0] == 'arr':
+        if type(v) is list:
+            return ('list', [dnative(desc, classes, ty[1], x, proto) for x in v])
+        return ('other', type(v).__name__)
+    if ty[0] == 'ref':
+        if hasattr(v, '_type_info'):
+            k = orig(type(v))
+            for i, c in enumerate(classes):
+                if k is c:
+                    return ('obj', i, [dnative(desc, classes, f['ty'], getattr(v, f['name'], None), proto, is_multi(f))
+                                       for f in flat_fields(desc, i)])
+        if type(v) is list:
+            return ('list', [('other', 'item')] if v else [])
+        return ('other', type(v).__name__)
+    p = ty[1]
+    if p == 'bytes':
+        if isinstance(v, (tuple, list)):
+            if proto == 'msgpack' and len(v) == 1 and is_doc(v[0]):
+                return ('tuple', v[0])
+            if all(isinstance(x, (bytes, bytearray, memoryview)) for x in v):
+                return ('parsed', 'DBytes')
+        return ('other', type(v).__name__)
+    if p == 'date':
+        if isinstance(v, datetime.date) and not isinstance(v, datetime.datetime):
+            return ('parsed', 'DDate')
+        return ('raw', v) if is_doc(v) else ('other', type(v).__name__)
+    if p == 'text':
+        if isinstance(v, str):
+            return ('text', v)
+        return ('raw', v) if is_doc(v) else ('other', type(v).__name__)
+    if isinstance(v, bool):
+        return ('bool', v)
+    if isinstance(v, int):
+        return ('int', v)
+    if isinstance(v, float):
+        return ('flt', v)
+    if is_doc(v):
+        return ('raw', v)
+    return ('other', type(v).__name__)
+
+
+def nv_in_model(v):
+    k = v[0]
+    if k == 'other':
+        return False
+    if k == 'list':
+        return all(nv_in_model(x) for x in v[1])
+    if k == 'obj':
+        return all(nv_in_model(x) for x in v[2])
+    return True
+
+
+def make_prot(name, val, wrappers):
+    from spyne.protocol.json import JsonDocument
+    from spyne.protocol.yaml import YamlDocument
+    from spyne.protocol.msgpack import MessagePackDocument
+    cls = {'json': JsonDocument, 'yaml': YamlDocument, 'msgpack': MessagePackDocument}[name]
+    return cls(validator=val, ignore_wrappers=not wrappers)
+
+
+def wire(name, doc):
+    """what the protocol's create_in_document makes of the document after one trip over the wire;
+    raises when the format cannot carry it"""
+    import yaml, msgpack
+    if name == 'json':
+        return json.loads(json.dumps(doc))
+    if name == 'yaml':
+        return yaml.load(yaml.safe_dump(doc), Loader=yaml.SafeLoader)
+    return msgpack.unpackb(msgpack.packb(doc))
+
+
+def encode_body(name, doc):
+    import yaml, msgpack
+    if name == 'json':
+        return json.dumps(doc).encode()
+    if name == 'yaml':
+        return yaml.safe_dump(doc).encode()
+    return msgpack.packb(doc)
+
+
+SCALARS = [None, True, False, 0, 1, 2, -1, 7, 255, 256, 300, -129, 2 ** 31, 2 ** 63, 2 ** 64 - 1, 0.0, 1.0, 2.0, -3.0, 2.5, 1e20, 1e300,
+           float('nan'), float('inf'), '', '5', '7', 'abc', 'true', '1', '2020-01-02', '2020-13-45', 'YWJj', ' 7 ', '1_0', '2.0']
+
+
+class DictEnc(object):
+    """schema-directed encoder of request documents with kind-directed mutations"""
+
+    def __init__(self, rng, desc, proto, wrappers, rich=False):
+        self.rng, self.desc, self.proto, self.wrappers, self.rich = rng, desc, proto, wrappers, rich
+        self.mutate_p = 0.0
+        self.muts = []
+
+    def roll(self):
+        return self.rng.random() < self.mutate_p
+
+    def hostile(self, depth=2):
+        r = self.rng.random()
+        if r < 0.55:
+            v = self.rng.choice(SCALARS)
+            if self.proto == 'msgpack' and isinstance(v, int) and not isinstance(v, bool) and not (-2 ** 63 <= v < 2 ** 64):
+                v = 2 ** 63
+            return v
+        if r < 0.62 and self.proto == 'msgpack':
+            return self.rng.choice([b'', b'5', b'abc', b'\xff\xfe'])
+        if r < 0.8:
+            return [self.hostile(depth - 1) for _ in range(self.rng.randint(0, 3))] if depth > 0 else []
+        keys = [f['name'] for c in self.desc['classes'] for f in c['fields']] + [c['name'] for c in self.desc['classes']] + ['zz', '']
+        d = {}
+        for _ in range(self.rng.randint(0, 3)):
+            d[self.rng.choice(keys)] = self.hostile(depth - 1) if depth > 0 else None
+        return d
+
+    def leaf(self, v):
+        k = v[0]
+        if k == 'int':
+            if self.proto == 'msgpack' and not (-2 ** 63 <= v[1] < 2 ** 64):
+                return 7
+            return v[1]
+        if k == 'bool':
+            return v[1]
+        if k == 'text':
+            return v[1]
+        if k == 'dbl':
+            return v[1]
+        if k == 'bytes':
+            return v[1] if self.proto == 'msgpack' else leaf_text(v)
+        return leaf_text(v)
+
+    def value(self, ty, v, name='?'):
+        if self.roll():
+            h = self.hostile()
+            self.muts.append('%s<-%s' % (name, type(h).__name__))
+            return h
+        if v[0] == 'none':
+            return None
+        if v[0] == 'list':
+            e = ty[1] if ty[0] == 'arr' else ty
+            return [self.value(e, x, name + '[]') for x in v[1]]
+        if v[0] == 'obj':
+            return self.obj(ty, v)
+        return self.leaf(v)
+
+    def obj(self, ty, v):
+        cid = v[1]
+        body = {}
+        for f, x in zip(flat_fields(self.desc, cid), v[2]):
+            if x[0] == 'none' and self.rng.random() < 0.6:
+                continue
+            key = f['name']
+            if self.roll():
+                key = self.rng.choice(['zz', key.upper(), key.encode() if self.proto == 'msgpack' else key + ' ', key])
+                self.muts.append('key %r' % (key,))
+            if is_multi(f):
+                if x[0] == 'list':
+                    body[key] = [self.value(f['ty'], y, f['name']) for y in x[1]]
+                    if self.roll():
+                        body[key] = self.hostile()
+                        self.muts.append('%s multi<-%s' % (f['name'], type(body[key]).__name__))
+                else:
+                    body[key] = None if self.rng.random() < 0.5 else []
+            else:
+                body[key] = self.value(f['ty'], x, f['name'])
+        if self.roll() and body:
+            # positional form: the members as a sequence
+            body = [body.get(f['name']) for f in flat_fields(self.desc, cid)]
+            self.muts.append('positional')
+        if self.wrappers:
+            name = self.desc['classes'][cid]['name']
+            if self.roll():
+                name = self.rng.choice([c['name'] for c in self.desc['classes']] + ['Nope', ''])
+                self.muts.append('wrapper %s' % name)
+            if self.roll():
+                self.muts.append('wrapper shape')
+                return self.rng.choice([{}, {name: body, 'x': 1}, [body], body])
+            return {name: body}
+        return body
+
+    def document(self, ty, v):
+        self.muts = []
+        return self.value(ty, v, 'top'), list(self.muts)
+
+
+def collect_strings(d, strs, byts):
+    if isinstance(d, str):
+        strs.add(d)
+        strs.update(d)
+    elif isinstance(d, (bytes, bytearray)):
+        byts.add(bytes(d))
+    elif isinstance(d, (list, tuple)):
+        for x in d:
+            collect_strings(x, strs, byts)
+    elif isinstance(d, dict):
+        for k, x in d.items():
+            collect_strings(k, strs, byts)
+            collect_strings(x, strs, byts)
+
+
+def reader_out(o, p):
+    """observed reader result -> text of DictModel 'out nv'"""
+    if o[0] != 'ok':
+        return gout(o, None)
+    v = o[1]
+    if v is None:
+        return '(Ok NNone)'
+    if p in INT_BOUNDS and isinstance(v, int) and not isinstance(v, bool):
+        return '(Ok (NInt %s))' % gz(v)
+    if p == 'date' and isinstance(v, datetime.date) and not isinstance(v, datetime.datetime):
+        return '(Ok (NParsed DDate))'
+    if p == 'bytes' and isinstance(v, (list, tuple)) and all(isinstance(x, (bytes, bytearray)) for x in v):
+        return '(Ok (NParsed DBytes))'
+    if p == 'text' and isinstance(v, str):
+        return '(Ok (NText %s))' % gtext(v)
+    return None
+
+
+def reader_tables(check, prot, pname, strs, byts):
+    """the protocol's text readers on every str / bytes of the documents: Coq association lists"""
+    rows_s, rows_b = [], []
+    for p in ('int', 'i32', 'u8', 'i64', 'date', 'bytes'):
+        cls = prim_class(p)
+        for s in sorted(strs):
+            if p == 'bytes':
+                if pname == 'msgpack':
+                    continue
+                o = observe(prot.from_unicode, cls, s, prot.binary_encoding)
+            else:
+                o = observe(prot.from_unicode, cls, s)
+            t = reader_out(o, p)
+            if t is None:
+                check.fail('C04|reader|%s|%s' % (pname, p), '%s.from_unicode(%s, %r) returned %r: not a value of its own kind'
+                           % (pname, p, s, o), {'kind': 'reader', 'protocol': pname, 'prim': p, 'text': s})
+                t = '(Crash OtherExn)'
+            rows_s.append('(%s, %s, %s)' % (g_dprim(p), gtext(s), t))
+    for p in ('int', 'i32', 'u8', 'i64', 'text'):
+        cls = prim_class(p)
+        for b in sorted(byts):
+            o = observe(prot.unicode_from_bytes, cls, b) if p == 'text' else observe(prot.from_unicode, cls, b)
+            t = reader_out(o, p)
+            if t is None:
+                t = '(Crash OtherExn)'
+            rows_b.append('(%s, %s, %s)' % (g_dprim(p), gtext(b), t))
+    return glist(rows_s), glist(rows_b)
+
+
+DICT_DEFS = """
+Definition dprim_eqb (a b : dprim) : bool :=
+  match a, b with
+  | DInt l1 h1, DInt l2 h2 => match l1, l2 with Some x, Some y => x =? y | None, None => true | _, _ => false end
+                              && match h1, h2 with Some x, Some y => x =? y | None, None => true | _, _ => false end
+  | DDouble, DDouble | DBool, DBool | DText, DText | DDate, DDate | DBytes, DBytes => true
+  | _, _ => false
+  end.
+Fixpoint tab_get (t : list (dprim * text * out nv)) (p : dprim) (s : text) : out nv :=
+  match t with
+  | [] => Crash OtherExn
+  | (q, k, r) :: rest => if dprim_eqb p q && text_eqb s k then r else tab_get rest p s
+  end.
+Definition flt_eqb (a b : flt) : bool :=
+  match a, b with FInt x, FInt y => x =? y | FFrac, FFrac | FNan, FNan | FInf, FInf => true | _, _ => false end.
+Fixpoint jv_eqb (a b : jv) : bool :=
+  match a, b with
+  | JNull, JNull => true
+  | JBool x, JBool y => Bool.eqb x y
+  | JInt x, JInt y => x =? y
+  | JFlt x, JFlt y => flt_eqb x y
+  | JStr x, JStr y => text_eqb x y
+  | JBytes x, JBytes y => text_eqb x y
+  | JList xs, JList ys =>
+      (fix go (l1 l2 : list jv) : bool :=
+         match l1, l2 with [], [] => true | x :: r1, y :: r2 => jv_eqb x y && go r1 r2 | _, _ => false end) xs ys
+  | JMap xs, JMap ys =>
+      (fix go (l1 l2 : list (jv * jv)) : bool :=
+         match l1, l2 with
+         | [], [] => true
+         | (k1, v1) :: r1, (k2, v2) :: r2 => jv_eqb k1 k2 && jv_eqb v1 v2 && go r1 r2
+         | _, _ => false
+         end) xs ys
+  | _, _ => false
+  end.
+Fixpoint nv_eqb (a b : nv) : bool :=
+  match a, b with
+  | NNone, NNone => true
+  | NBool x, NBool y => Bool.eqb x y
+  | NInt x, NInt y => x =? y
+  | NFlt x, NFlt y => flt_eqb x y
+  | NText x, NText y => text_eqb x y
+  | NParsed p, NParsed q => dprim_eqb p q
+  | NRaw x, NRaw y => jv_eqb x y
+  | NTuple x, NTuple y => jv_eqb x y
+  | NObj c xs, NObj d ys =>
+      Nat.eqb c d && (fix go (l1 l2 : list nv) : bool :=
+         match l1, l2 with [], [] => true | x :: r1, y :: r2 => nv_eqb x y && go r1 r2 | _, _ => false end) xs ys
+  | NList xs, NList ys =>
+      (fix go (l1 l2 : list nv) : bool :=
+         match l1, l2 with [], [] => true | x :: r1, y :: r2 => nv_eqb x y && go r1 r2 | _, _ => false end) xs ys
+  | _, _ => false
+  end.
+"""
+
+
+def dict_key(prot, val, bad):
+    recv = bad[2].split(':')[0]
+    return 'C04|%s|validator=%s|%s->%s' % (prot, val, bad[1], recv)
+
+
+def corr_dict(check, tier):
+    """HierDictDocument._doc_to_object / _from_dict_value for JSON, YAML and MessagePack (wrappers on and off,
+    validator soft and None) against C04.DictModel"""
+    rng = check.rng
+    n_univ = 3 if tier == 'quick' else 16
+    per_class = 6 if tier == 'quick' else 12
+    for ui in range(n_univ):
+        desc = gen_ddesc(rng, rng.randint(2, 5))
+        classes = build_spyne(desc)
+        n = len(classes)
+        params = [('ref', i) for i in range(n)] + [('arr', ('ref', rng.randrange(n)))]
+        guniv = g_duniverse(desc, classes)
+        for pname in ('json', 'yaml', 'msgpack'):
+            for wrappers in (False, True):
+                prots = {soft: make_prot(pname, 'soft' if soft else None, wrappers) for soft in (True, False)}
+                app, cap, in_msg = build_app(classes, params, prots[True], prots[False].__class__())
+                try:
+                    from spyne import Application
+                    prots[False].set_app(app)
+                except Exception:
+                    pass
+                enc = DictEnc(rng, desc, pname, wrappers)
+                cases, strs, byts = [], set(), set()
+                targets = [('ref', i) for i in range(n)] + [('arr', ('prim', rng.choice(DICT_PRIMS))), ('arr', ('ref', rng.randrange(n)))] \
+                    + [('prim', p) for p in DICT_PRIMS]
+                for ty in targets:
+                    cls = ty_class(classes, ty)
+                    reps = per_class if ty[0] != 'prim' else 10
+                    for j in range(reps):
+                        enc.mutate_p = 0.0 if j == 0 else rng.choice([0.1, 0.3, 0.6, 1.0 if ty[0] == 'prim' else 0.3])
+                        v = gen_value(rng, desc, ty, rng.randint(1, 3), False, poly=wrappers and j % 2 == 1)
+                        doc0, muts = enc.document(ty, v)
+                        try:
+                            doc = wire(pname, doc0)
+                        except Exception:
+                            continue
+                        if not is_doc(doc):
+                            continue
+                        collect_strings(doc, strs, byts)
+                        for soft in (True, False):
+                            if not soft and rng.random() < 0.5:
+                                continue
+                            prot = prots[soft]
+                            nullable = True
+                            if ty[0] == 'prim' or rng.random() < 0.5:
+                                fn, o = 'fdv', observe(prot._from_dict_value, None, 'k', cls, doc, prot.validator)
+                            else:
+                                fn, o = 'd2o', observe(prot._doc_to_object, None, cls, doc, prot.validator)
+                            check.count(('dict', pname, wrappers, soft, fn, repr(ty), repr(doc)))
+                            if o[0] == 'ok':
+                                if soft:
+                                    bad = native_ok(cls, o[1]) if not (fn == 'd2o' and doc is None) else None
+                                    if bad:
+                                        check.fail(dict_key(type(prot).__name__, 'soft', bad),
+                                                   '%s(validator=soft, ignore_wrappers=%s).%s delivered %s where %s is declared (at %s) for the document %r'
+                                                   % (type(prot).__name__, not wrappers, '_from_dict_value' if fn == 'fdv' else '_doc_to_object',
+                                                      bad[2], bad[1], bad[0], doc),
+                                                   {'kind': 'dict-object', 'protocol': pname, 'wrappers': wrappers, 'universe': desc, 'type': ty,
+                                                    'document': repr(doc), 'mutations': muts})
+                                nvv = dnative(desc, classes, ty, o[1], pname)
+                                if not nv_in_model(nvv):
+                                    continue
+                                o = ('ok', nvv)
+                            cases.append(('(%s, %s, %s, %s, %s)' % (gbool(soft), gbool(fn == 'fdv'), g_dty(ty), g_jv(doc), gout(o, g_nv)),
+                                          'universe %d %s wrappers=%s soft=%s %s %r %s: %r -> %r' % (ui, pname, wrappers, soft, fn, ty, muts, doc, o)))
+                rs, rb = reader_tables(check, prots[True], pname, strs, byts)
+                imports = (DICT_IMPORTS + DICT_DEFS + 'Definition UU : duniverse := %s.\nDefinition RS : list (dprim * text * out nv) := %s.\nDefinition RB : list (dprim * text * out nv) := %s.\n'
+                           'Definition CF (soft : bool) : dcfg := mkdcfg %s soft %s (dict_leaf %s) (tab_get RS) (tab_get RB).\n'
+                           % (guniv, rs, rb, PROTOS[pname], gbool(not wrappers), PROTOS[pname]))
+                lib.correspond(check, 'dict_%s' % pname, imports, 'bool * bool * dty * jv * out nv',
+                               '(fun c : bool * bool * dty * jv * out nv => let \'(soft, leafwise, t, d, o) := c in out_eqb nv_eqb '
+                               '(if leafwise then fdv (CF soft) UU %d t true d else doc_to_object (CF soft) UU %d t d) o)' % (FUEL, FUEL),
+                               cases,
+                               show='(fun c : bool * bool * dty * jv * out nv => let \'(soft, leafwise, t, d, o) := c in '
+                                    'if leafwise then fdv (CF soft) UU %d t true d else doc_to_object (CF soft) UU %d t d)' % (FUEL, FUEL))
+                if ui == 0 and pname == 'json' and not wrappers and cases:
+                    check.sample({'dict universe': desc, 'case': cases[min(5, len(cases) - 1)][1][:500]})
+
+
+def oracle_dict(check, tier):
+    """JSON / YAML / MessagePack requests through ServerBase, validator soft, rich leaf types"""
+    rng = check.rng
+    n_univ = 4 if tier == 'quick' else 24
+    n_docs = 40 if tier == 'quick' else 120
+    for ui in range(n_univ):
+        desc = gen_desc(rng, rng.randint(2, 5), prims=RICH_PRIMS, allow_attr=False)
+        classes = build_spyne(desc)
+        n = len(classes)
+        params = [rng.choice([('prim', rng.choice(RICH_PRIMS)), ('ref', rng.randrange(n)), ('arr', ('ref', rng.randrange(n))),
+                              ('arr', ('prim', rng.choice(RICH_PRIMS)))]) for _ in range(rng.randint(1, 3))]
+        params += [('ref', n - 1)]
+        for pname in ('json', 'yaml', 'msgpack'):
+            for wrappers in (False, True):
+                prot = make_prot(pname, 'soft', wrappers)
+                app, cap, in_msg = build_app(classes, params, prot, type(prot)())
+                d2 = msg_desc(desc, classes, in_msg)
+                mcid = len(d2['classes']) - 1
+                pcs = list(in_msg._type_info.values())
+                enc = DictEnc(rng, d2, pname, wrappers, rich=True)
+                for di in range(n_docs // (2 if wrappers else 1)):
+                    enc.mutate_p = 0.0 if di == 0 else rng.choice([0.05, 0.15, 0.4])
+                    v = gen_value(rng, d2, ('ref', mcid), rng.randint(1, 3), False, poly=wrappers and di % 2 == 1)
+                    body, muts = enc.document(('ref', mcid), v)
+                    if wrappers and isinstance(body, dict) and list(body.keys()) == ['f']:
+                        doc = body
+                    else:
+                        doc = {'f': body}
+                    if pname == 'msgpack':
+                        doc = dict((k.encode() if isinstance(k, str) else k, x) for k, x in doc.items())
+                    try:
+                        b = encode_body(pname, doc)
+                    except Exception:
+                        continue
+                    res = drive(app, b, cap)
+                    check.count(('oracle-dict', pname, wrappers, b))
+                    if res[0] != 'called':
+                        continue
+                    replay = {'kind': 'dict-request', 'protocol': pname, 'wrappers': wrappers, 'validator': 'soft', 'universe': desc,
+                              'params': params, 'document': repr(doc), 'mutations': muts}
+                    for i, (pc, a) in enumerate(zip(pcs, res[1])):
+                        bad = native_ok(pc, a, 'p%d' % i)
+                        if bad:
+                            check.fail(dict_key(type(prot).__name__, 'soft', bad),
+                                       '%s(validator=soft, ignore_wrappers=%s): the service function received %s where %s is declared (at %s); request %r'
+                                       % (type(prot).__name__, not wrappers, bad[2], bad[1], bad[0], doc), replay)
+                            break
+
+
 # ====================================================================== run
 def run(check):
     tier = check.tier
@@ -896,12 +1470,15 @@ def run(check):
         'leaf readers return values of their own kind (hypothesis of C04_xml_typed; discharged for Integer/Unicode/Boolean by C04_xml_typed_spyne)',
         'universes are well formed: acyclic single inheritance, distinct flattened member names, single-valued XmlAttribute members',
     ]
-    check.regen(['xsitype', 'numtypes'])
+    check.regen(['xsitype', 'dictleaf', 'numtypes'])
     check.check_sources()
     check.prove('Props.C04', THEOREMS)
     corr_xml(check, tier)
     lib.flush_correspondences(check)
     oracle_xml(check, tier)
+    corr_dict(check, tier)
+    lib.flush_correspondences(check)
+    oracle_dict(check, tier)
     return check.finish()
 
 
